@@ -107,6 +107,9 @@ def averageifs(average_range, *args):
         return coords
 
     data = _numerics((average_range[r][c] for r, c in coords), keep_bools=True)
+    if isinstance(data, str):
+        # an error value among the selected cells
+        return data
     if len(data) == 0:
         return DIV0
     return sum(data) / len(data)
